@@ -60,6 +60,10 @@ type Taint struct {
 	noCallee   func(f *ssa.Function) bool   // callees that never retain or return their arguments (trusted externals default: all body-less functions return-taint if any arg tainted? no: see externalReturns)
 	extReturn  func(c *ssa.CallCommon) bool // body-less callee: does the result alias an argument? default false
 	tainted    map[ssa.Value]*taintWhy
+	// holders: pointers to memory that is NOT owned by a root (a local copy of a struct, a local array) but in which a
+	// derived reference has been stored: a load through a holder may yield that reference; a store through it is harmless
+	holders  map[ssa.Value]*taintWhy
+	holdWork []ssa.Value
 	fieldT     map[*types.Var]*taintWhy // heap: field of non-local object holds a tainted reference
 	globalT    map[*ssa.Global]*taintWhy
 	elemT      map[types.Type]bool // not used
@@ -76,7 +80,7 @@ type Taint struct {
 }
 
 func NewTaint(p *Prog) *Taint {
-	return &Taint{p: p, tainted: map[ssa.Value]*taintWhy{}, fieldT: map[*types.Var]*taintWhy{}, globalT: map[*ssa.Global]*taintWhy{},
+	return &Taint{p: p, holders: map[ssa.Value]*taintWhy{}, tainted: map[ssa.Value]*taintWhy{}, fieldT: map[*types.Var]*taintWhy{}, globalT: map[*ssa.Global]*taintWhy{},
 		resultT: map[*ssa.Function]map[int]bool{}, Ctrl: map[*ssa.Function]bool{}}
 }
 
@@ -175,6 +179,15 @@ func (t *Taint) Run() {
 				continue
 			}
 			t.flowFrom(v)
+		}
+		for len(t.holdWork) > 0 {
+			h := t.holdWork[len(t.holdWork)-1]
+			t.holdWork = t.holdWork[:len(t.holdWork)-1]
+			t.flowHolder(h)
+			changed = changed || len(t.work) > 0
+		}
+		if len(t.work) > 0 {
+			continue
 		}
 		// heap / global / result summaries feed loads & calls anywhere: rescan (cheap enough)
 		if t.applySummaries() {
@@ -339,12 +352,14 @@ func (t *Taint) storeInto(addr ssa.Value, v ssa.Value, site ssa.Instruction) {
 	case *ssa.Alloc:
 		// spilled local: loads of the alloc, and of any field path inside it, see the stored (struct) value
 		t.markLoadsDeep(a, why, 0)
+		t.markHolder(a, why)
 		return
 	case *ssa.FieldAddr:
 		f := fieldOf(a)
 		if al := localRoot(a); al != nil && !al.Heap {
 			// field of a stack local: track precisely through the alloc's field loads
 			t.markFieldLoadsOf(al, a.Field, why)
+			t.markHolder(al, why)
 			return
 		}
 		if f != nil {
@@ -357,6 +372,7 @@ func (t *Taint) storeInto(addr ssa.Value, v ssa.Value, site ssa.Instruction) {
 		// element of a local array (composite literal under construction): loads of the array see it
 		if al := localRoot(a); al != nil {
 			t.markLoadsDeep(al, why, 0)
+			t.markHolder(al, why)
 		}
 	default:
 		// element of a container (IndexAddr on a slice), store through a loaded pointer, parameter pointee, ...:
@@ -365,6 +381,100 @@ func (t *Taint) storeInto(addr ssa.Value, v ssa.Value, site ssa.Instruction) {
 }
 
 func containerHome(v ssa.Value) ssa.Value { return v }
+
+func (t *Taint) markHolder(v ssa.Value, why *taintWhy) {
+	if v == nil || t.values {
+		return
+	}
+	if _, ok := t.holders[v]; ok {
+		return
+	}
+	if _, ok := t.tainted[v]; ok {
+		return // already stronger
+	}
+	t.holders[v] = why
+	t.holdWork = append(t.holdWork, v)
+}
+
+// flowHolder: h points to non-root memory holding a derived reference. Its address flows to sub-object pointers, phis,
+// callee parameters and elements of local arrays; a load through it of a value that can carry a reference is derived.
+// (Inside the function that owns the local, loads are already tracked precisely by markLoadsDeep/markFieldLoadsOf: the
+// holder class matters once the address leaves through a call, or is kept in an array or another local.)
+func (t *Taint) flowHolder(h ssa.Value) {
+	refs := h.Referrers()
+	if refs == nil {
+		return
+	}
+	for _, in := range *refs {
+		why := &taintWhy{from: h, note: "through a local holding a derived reference", site: in}
+		switch x := in.(type) {
+		case *ssa.FieldAddr:
+			if x.X == h {
+				t.markHolder(x, why)
+			}
+		case *ssa.IndexAddr:
+			if x.X == h {
+				t.markHolder(x, why)
+			}
+		case *ssa.Phi, *ssa.ChangeType, *ssa.Convert, *ssa.MakeInterface, *ssa.ChangeInterface:
+			t.markHolder(x.(ssa.Value), why)
+		case *ssa.UnOp:
+			if x.Op == token.MUL && x.X == h && t.carries(x.Type()) {
+				// in the owning function the precise tracking decides; elsewhere the loaded value may be the reference
+				if localRoot(h) == nil {
+					t.mark(x, why)
+				} else {
+					// a pointer kept in a local array / struct of pointers is itself a holder if one was stored there;
+					// an aggregate loaded whole (the copy a range loop iterates over) contains such pointers
+					switch x.Type().Underlying().(type) {
+					case *types.Pointer, *types.Array, *types.Struct:
+						t.markHolder(x, why)
+					}
+				}
+			}
+		case *ssa.Index:
+			if x.X == h {
+				switch x.Type().Underlying().(type) {
+				case *types.Pointer, *types.Array, *types.Struct:
+					t.markHolder(x, why)
+				}
+			}
+		case *ssa.Field:
+			if x.X == h {
+				switch x.Type().Underlying().(type) {
+				case *types.Pointer, *types.Array, *types.Struct:
+					t.markHolder(x, why)
+				}
+			}
+		case *ssa.Store:
+			// the address of the holder is stored into another local (an array of pointers): loads of that local give it back
+			if x.Val == h {
+				if al := localRoot(x.Addr); al != nil {
+					t.markHolder(al, why)
+				}
+			}
+		case ssa.CallInstruction:
+			c := x.Common()
+			if _, isB := c.Value.(*ssa.Builtin); isB {
+				continue
+			}
+			for _, callee := range t.p.Callees(x) {
+				if callee.Blocks == nil || t.scope != nil && !t.scope[callee] {
+					continue
+				}
+				off := 0
+				if c.IsInvoke() {
+					off = 1
+				}
+				for i, a := range c.Args {
+					if a == h && i+off < len(callee.Params) {
+						t.markHolder(callee.Params[i+off], why)
+					}
+				}
+			}
+		}
+	}
+}
 
 func (t *Taint) markLoadsOf(addr ssa.Value, why *taintWhy) {
 	refs := addr.Referrers()
